@@ -541,6 +541,9 @@ pub fn enabled(m: &Model) -> Vec<Op> {
 pub struct Real {
     pub slots: Vec<*mut Value>,
     pub filter: *mut Filter,
+    /// false: the error message is never fetched between calls (a caller that only checks the
+    /// sentinels); a pending message must not change what later calls do
+    pub drain: bool,
 }
 
 fn cs(b: &[u8]) -> CString {
@@ -604,7 +607,7 @@ fn rt(r: ResultType) -> i32 {
 
 impl Real {
     pub fn new() -> Real {
-        Real { slots: vec![std::ptr::null_mut(); SLOTS], filter: std::ptr::null_mut() }
+        Real { slots: vec![std::ptr::null_mut(); SLOTS], filter: std::ptr::null_mut(), drain: true }
     }
 
     /// run the real constructor; null = failure
@@ -642,7 +645,9 @@ impl Real {
     /// execute the operation on the real API and compare its return value (and borrowed value)
     /// with the model's expectation
     pub unsafe fn step(&mut self, op: &Op, want: &Expect) -> Result<(), String> {
-        let _ = take_error();
+        if self.drain {
+            let _ = take_error();
+        }
         let name = format!("{op:?}");
         let got: i32 = match op {
             Op::Make(s, c) => {
@@ -717,7 +722,11 @@ impl Real {
             let e = take_error();
             return Err(format!("{name}: returned {got}, the Rust operation gives {want_code} (error message: {e:?})"));
         }
-        check_error(got == -1, &name)
+        if self.drain {
+            check_error(got == -1, &name)
+        } else {
+            Ok(())
+        }
     }
 
     /// destroy every live handle exactly once (end of a protocol-respecting history)
@@ -1197,4 +1206,212 @@ pub unsafe fn bad_string_sweep() -> Result<u64, String> {
         return Err(format!("dict entry points with a non-UTF-8 key changed their arguments (dict len {len})"));
     }
     Ok(calls)
+}
+
+/// Borrowed entry pointers stay valid — and keep pointing at the same entry — across every
+/// read-only call on their container (the protocol: "while the container is alive and
+/// unmodified"); every returned string is a fresh allocation that can be destroyed on its own.
+/// Returns the number of calls made.
+pub unsafe fn borrow_sweep() -> Result<u64, String> {
+    let mut calls = 0u64;
+    let _ = take_error();
+    // a list of five, a dict of five (from text), a grid of five rows
+    let list = opt_box(haystack_value_from_zinc_string(cs(b"[1,\"two\",@three,{k:4},[5,6]]").as_ptr()));
+    let dict = opt_box(haystack_value_from_zinc_string(cs(b"{a:1,b:\"two\",siteRef:@three,d:{k:4},e:[5,6]}").as_ptr()));
+    let grid = opt_box(haystack_value_from_zinc_string(cs(b"ver:\"3.0\"\na,b\n1,2\n3,4\n5,6\n7,8\n9,10\n").as_ptr()));
+    let out = Box::into_raw(haystack_value_init());
+    if list.is_null() || dict.is_null() || grid.is_null() {
+        return Err("borrow sweep: set-up values do not decode".into());
+    }
+    let result = (|| -> Result<(), String> {
+        let want_list: Vec<Value> = match &*list {
+            Value::List(l) => l.clone(),
+            _ => return Err("not a list".into()),
+        };
+        let mut ptrs: Vec<*const Value> = vec![];
+        for i in 0..want_list.len() {
+            let mut p: *const Value = std::ptr::null();
+            if haystack_value_get_list_entry_at(list, i, &mut p) != ResultType::TRUE || p.is_null() {
+                return Err(format!("get_list_entry_at({i}) failed"));
+            }
+            ptrs.push(p);
+            calls += 1;
+        }
+        let keys: Vec<&[u8]> = vec![b"a", b"b", b"siteRef", b"d", b"e"];
+        let want_dict: Vec<Value> = match &*dict {
+            Value::Dict(d) => keys.iter().map(|k| d.get(std::str::from_utf8(k).unwrap()).cloned().unwrap()).collect(),
+            _ => return Err("not a dict".into()),
+        };
+        let mut dptrs: Vec<*const Value> = vec![];
+        for k in &keys {
+            let mut p: *const Value = std::ptr::null();
+            if haystack_value_get_dict_entry(dict, cs(k).as_ptr(), &mut p) != ResultType::TRUE || p.is_null() {
+                return Err(format!("get_dict_entry({:?}) failed", String::from_utf8_lossy(k)));
+            }
+            dptrs.push(p);
+            calls += 1;
+        }
+        // every read-only call on the containers, twice; strings destroyed one by one
+        for _ in 0..2 {
+            for h in [list, dict, grid] {
+                for f in [haystack_value_to_zinc_string as unsafe extern "C" fn(*const Value) -> *const c_char, haystack_value_to_json_string] {
+                    let (a, b) = (f(h), f(h));
+                    calls += 2;
+                    if a.is_null() || b.is_null() {
+                        return Err("encoding a container failed".into());
+                    }
+                    if a == b {
+                        return Err("a string getter returned the same pointer twice: destroying both frees it twice".into());
+                    }
+                    haystack_string_destroy(a as *mut c_char);
+                    haystack_string_destroy(b as *mut c_char);
+                }
+                let _ = haystack_value_is_list(h);
+                let _ = haystack_value_is_dict(h);
+                let _ = haystack_value_is_grid(h);
+                let _ = haystack_value_get_list_len(h);
+                let _ = haystack_value_get_dict_len(h);
+                let _ = haystack_value_get_grid_len(h);
+                let _ = take_error();
+                calls += 6;
+            }
+            let _ = haystack_value_get_dict_keys(dict, out);
+            for i in 0..5 {
+                let _ = haystack_value_get_grid_row_at(grid, i, out);
+                let mut p: *const Value = std::ptr::null();
+                let _ = haystack_value_get_list_entry_at(list, 4 - i, &mut p);
+                calls += 2;
+            }
+            let mut p: *const Value = std::ptr::null();
+            let _ = haystack_value_get_dict_entry(dict, cs(b"nope").as_ptr(), &mut p);
+            let _ = haystack_value_get_list_entry_at(list, 99, &mut p);
+            let _ = take_error();
+            // the borrowed pointers still point at their entries
+            for (i, p) in ptrs.iter().enumerate() {
+                if **p != want_list[i] {
+                    return Err(format!("the entry pointer of list element {i} no longer points at it after read-only calls: {:?}", **p));
+                }
+            }
+            for (i, p) in dptrs.iter().enumerate() {
+                if **p != want_dict[i] {
+                    return Err(format!("the entry pointer of dict key {:?} no longer points at it after read-only calls: {:?}", String::from_utf8_lossy(keys[i]), **p));
+                }
+            }
+        }
+        // borrowed pointers fed back into the API: "append a copy of the first element" etc. The
+        // container is alive and unmodified when the call starts, so this is inside the protocol;
+        // the list grows past several capacities
+        {
+            let l2 = opt_box(haystack_value_from_zinc_string(cs(b"[\"entry number 0\",{k:[1,2,3]},3]").as_ptr()));
+            let d2 = opt_box(haystack_value_from_zinc_string(cs(b"{a:\"entry a\",b:{k:[1,2,3]}}").as_ptr()));
+            let mut model: Vec<Value> = match &*l2 {
+                Value::List(l) => l.clone(),
+                _ => vec![],
+            };
+            let mut verdict: Result<(), String> = Ok(());
+            for round in 0..40usize {
+                let idx = round % model.len();
+                let mut p: *const Value = std::ptr::null();
+                if haystack_value_get_list_entry_at(l2, idx, &mut p) != ResultType::TRUE {
+                    verdict = Err("get_list_entry_at failed".into());
+                    break;
+                }
+                calls += 2;
+                let expect = model[idx].clone();
+                match round % 3 {
+                    0 => {
+                        if haystack_value_push_list_entry(l2, p) != ResultType::TRUE {
+                            verdict = Err("push_list_entry(list, borrowed entry of the same list) failed".into());
+                            break;
+                        }
+                        model.push(expect);
+                    }
+                    1 => {
+                        // twice in a row from the same borrowed pointer is NOT allowed (the first
+                        // push modified the container): borrow again
+                        if haystack_value_push_list_entry(l2, p) != ResultType::TRUE {
+                            verdict = Err("push_list_entry(list, borrowed entry of the same list) failed".into());
+                            break;
+                        }
+                        model.push(expect.clone());
+                        let mut p2: *const Value = std::ptr::null();
+                        let _ = haystack_value_get_list_entry_at(l2, model.len() - 1, &mut p2);
+                        let _ = haystack_value_push_list_entry(l2, p2);
+                        model.push(expect);
+                    }
+                    _ => {
+                        let key = cs(format!("k{round}").as_bytes());
+                        if haystack_value_insert_dict_entry(d2, key.as_ptr(), p) != ResultType::TRUE {
+                            verdict = Err("insert_dict_entry(dict, key, borrowed list entry) failed".into());
+                            break;
+                        }
+                        let mut q: *const Value = std::ptr::null();
+                        if haystack_value_get_dict_entry(d2, cs(b"b").as_ptr(), &mut q) == ResultType::TRUE {
+                            // a borrowed dict entry into the same dict under a new key
+                            let key2 = cs(format!("c{round}").as_bytes());
+                            let _ = haystack_value_insert_dict_entry(d2, key2.as_ptr(), q);
+                            let _ = haystack_value_push_list_entry(l2, q);
+                            model.push(match &*d2 {
+                                Value::Dict(d) => d.get("b").cloned().unwrap_or_default(),
+                                _ => Value::default(),
+                            });
+                        }
+                    }
+                }
+                match &*l2 {
+                    Value::List(l) if *l == model => {}
+                    other => {
+                        verdict = Err(format!("after feeding a borrowed entry back into its list (round {round}) the list is {:?}, expected {:?}", other, model).chars().take(700).collect());
+                        break;
+                    }
+                }
+            }
+            haystack_value_destroy(l2);
+            haystack_value_destroy(d2);
+            let _ = take_error();
+            verdict?;
+        }
+        // scalar string getters twice
+        let s = opt_box(haystack_value_from_zinc_string(cs(b"[\"str\",`uri`,@ref \"dis\",^sym,Bin(\"x\"),5kW,2021-07-01T12:00:00-04:00 New_York,\"\"]").as_ptr()));
+        if s.is_null() {
+            return Err("borrow sweep: scalar list does not decode".into());
+        }
+        let getters: Vec<unsafe extern "C" fn(*const Value) -> *const c_char> = vec![
+            haystack_value_get_str_value,
+            haystack_value_get_uri_value,
+            haystack_value_get_ref_value,
+            haystack_value_get_ref_dis,
+            haystack_value_get_symbol_value,
+            haystack_value_get_xstr_type,
+            haystack_value_get_xstr_value,
+            haystack_value_get_number_unit,
+            haystack_value_get_datetime_timezone,
+        ];
+        let mut verdict = Ok(());
+        for i in 0..8usize {
+            let mut p: *const Value = std::ptr::null();
+            let _ = haystack_value_get_list_entry_at(s, i, &mut p);
+            for g in &getters {
+                let (a, b) = (g(p), g(p));
+                calls += 2;
+                let _ = take_error();
+                if !a.is_null() && a == b {
+                    verdict = Err("a scalar string getter returned the same pointer twice".to_string());
+                }
+                if !a.is_null() {
+                    haystack_string_destroy(a as *mut c_char);
+                }
+                if !b.is_null() && b != a {
+                    haystack_string_destroy(b as *mut c_char);
+                }
+            }
+        }
+        haystack_value_destroy(s);
+        verdict
+    })();
+    haystack_value_destroy(list);
+    haystack_value_destroy(dict);
+    haystack_value_destroy(grid);
+    haystack_value_destroy(out);
+    result.map(|_| calls)
 }
